@@ -141,6 +141,28 @@ pub fn c12(log: &mut Log, seed: u64, tier: &str) {
         let keys: Vec<Kv> = (0..uni.len()).filter(|i| mask & (1 << i) != 0).map(|i| (uni[i].clone(), 0u64)).collect();
         tapped_build(log, &keys, true, geos[(mask as usize) % geos.len()], true);
     }
+    // ... and as maps whose values repeat below every stem, so that the same node - with outputs of
+    // every width from one to eight bytes - recurs: it is emitted once unless the cache evicted
+    for mask in (0u32..(1u32 << uni.len())).step_by(if thorough(tier) { 1 } else { 3 }) {
+        for &sh in &[0u32, 7, 15, 23, 31, 32, 39, 47, 55, 63] {
+            if !thorough(tier) && (mask + sh) % 4 != 0 {
+                continue;
+            }
+            let items: Vec<Kv> = (0..uni.len())
+                .filter(|i| mask & (1 << i) != 0)
+                .map(|i| {
+                    let k = uni[i].clone();
+                    let v = match k.last() {
+                        Some(b'b') => 7u64 + (1u64 << sh),
+                        Some(b'a') => 7,
+                        _ => 3,
+                    };
+                    (k, v)
+                })
+                .collect();
+            tapped_build(log, &items, false, if sh % 2 == 0 { None } else { Some((4096, 4)) }, true);
+        }
+    }
     // (3) corpora: minimality at scale and the sharing ratio with the default geometry
     let mut corpora = vec!["words-10000", "wiki-urls-10000"];
     if thorough(tier) {
@@ -452,6 +474,33 @@ pub fn c15(log: &mut Log, seed: u64, tier: &str) {
             }
             let bytes = build_via(paths[0], items, *set);
             log.ev(json!({"ev": "Built", "input": name, "path": "after_abandoned_builders", "thread": 0, "pid": 0, "rep": 0, "digest": fnv(&bytes)}));
+            // ... nor builds that failed before on this thread: a wide set whose sink fails at every
+            // write index in turn, then two wide sets over other bytes
+            {
+                use crate::scen_sink::{build_through, Policy};
+                let wide = |from: u8, n: u8| -> Vec<Kv> { (0..n).map(|x| (vec![from + x, b't'], 0u64)).collect() };
+                let probe_a = wide(100, 40);
+                let probe_b = wide(3, 35);
+                let before_a = fnv(&build_via("raw_add", &probe_a, true));
+                let before_b = fnv(&build_via("raw_add", &probe_b, true));
+                let failing = wide(0, 60);
+                log.ev(json!({"ev": "Built", "input": format!("wide-probe-a@{}", idx), "path": "before_failed_builds", "thread": 0, "pid": 0, "rep": 0, "digest": before_a}));
+                log.ev(json!({"ev": "Built", "input": format!("wide-probe-b@{}", idx), "path": "before_failed_builds", "thread": 0, "pid": 0, "rep": 0, "digest": before_b}));
+                // (the probes are rebuilt right after every failed build: a later successful build
+                // over the same bytes could put things right again)
+                for k in 0..200usize {
+                    let _ = build_through(&failing, true, Policy::FaultAt { index: k, kind: (k % 4) as u8 }, 1);
+                    let (name_p, probe) = if k % 2 == 0 { ("wide-probe-a", &probe_a) } else { ("wide-probe-b", &probe_b) };
+                    log.ev(json!({"ev": "Built", "input": format!("{}@{}", name_p, idx), "path": format!("after_failed_build_{}", k), "thread": 0, "pid": 0, "rep": 0,
+                                  "digest": fnv(&build_via("raw_add", probe, true))}));
+                    if k % 2 == 1 {
+                        // ... and with the other probe after the same failure point
+                        let _ = build_through(&failing, true, Policy::FaultAt { index: k - 1, kind: 0 }, 1);
+                        log.ev(json!({"ev": "Built", "input": format!("wide-probe-b@{}", idx), "path": format!("after_failed_build_{}b", k - 1), "thread": 0, "pid": 0, "rep": 0,
+                                      "digest": fnv(&build_via("raw_add", &probe_b, true))}));
+                    }
+                }
+            }
         }
         // parallel threads
         if idx % 4 == 0 || big {
